@@ -40,6 +40,9 @@ def strategy():
         'ents': st.lists(st.integers(0, 9 ** 4 - 1).map(
             lambda p: [p % 9, p // 9 % 9, p // 81 % 9, p // 729 % 9][:1 + p % 4]), min_size=1, max_size=4),
         'procs': st.lists(small, max_size=5),
+        # churn: 0, or how many detach / re-attach cycles (components) and remove / re-add cycles (processors) the
+        # world goes through before it is queried - the answers must not depend on how the state was reached
+        'amp': worldops.size_amp(),
     })
 
 
@@ -79,6 +82,23 @@ def run_case(case):
         procs = [t() for t in ptypes]
         for p in procs:
             w.add_processor(p)
+        churn = case.get('amp', 0)
+        for r in range(churn):
+            if rows and rows[r % len(rows)][1]:
+                e, comps = rows[r % len(rows)]
+                c = comps[(r // len(rows)) % len(comps)]
+                got = w.remove_component(e, type(c))
+                if got is not c:
+                    viol('remove_component_returns_exact_or_a_match', type=type(c).__name__, got=repr(got),
+                         exact=[repr(c)], matches=[], during='churn', cycle=r)
+                w.add_component(e, c)
+            if procs:
+                p = procs[r % len(procs)]
+                got = w.remove_processor(type(p))
+                if got is not p:
+                    viol('remove_processor_returns_exact_or_a_match', type=type(p).__name__, got=repr(got),
+                         during='churn', cycle=r)
+                w.add_processor(p)
         return w, rows, procs
 
     def q(fn, *a):
@@ -219,4 +239,6 @@ def run_case(case):
         classes.append('match_through_two_paths')
     if len(ptypes) >= 2:
         classes.append('two_or_more_processors')
+    if case.get('amp'):
+        classes.append('churned_before_the_queries')
     return {'nontrivial': multi_base and multi_path, 'classes': classes}
